@@ -134,12 +134,18 @@ Definition alg_from_curve (bits : Z) : Z :=
   | None => match tbl_algFromCurve_default with Some d => d | None => 0 end
   end.
 
+(* ecCoordinate: x / y on the full field size; a value that does not fit is
+   left unpadded (and refused by validate) *)
+Definition ec_coord (v size : Z) : bytes :=
+  if (v <? 0) || (256 ^ size <=? v) then zbytes (Z.abs v) else be_enc (Z.to_nat size) v.
+Definition field_size (bits : Z) : Z := (bits + 7) / 8.
+
 Definition new_key_from_public (p : pubkey) : res key :=
   match p with
   | PubEC bits x y =>
       let alg := alg_from_curve bits in
       if alg =? c_AlgorithmReserved then Rej EOther
-      else new_key_ec2 alg (Some (zbytes x)) (Some (zbytes y)) None
+      else new_key_ec2 alg (Some (ec_coord x (field_size bits))) (Some (ec_coord y (field_size bits))) None
   | PubEd x => new_key_okp c_AlgorithmEdDSA (Some x) None
   | PubOther => Rej EInvalidPubKey
   end.
@@ -149,7 +155,7 @@ Definition new_key_from_private (p : privkey) : res key :=
   | PrivEC bits x y d =>
       let alg := alg_from_curve bits in
       if alg =? c_AlgorithmReserved then Rej EOther
-      else new_key_ec2 alg (Some (zbytes x)) (Some (zbytes y)) (Some (zbytes d))
+      else new_key_ec2 alg (Some (ec_coord x (field_size bits))) (Some (ec_coord y (field_size bits))) (Some (zbytes d))
   | PrivEd sk => new_key_okp c_AlgorithmEdDSA (Some (skipn 32 sk)) (Some (firstn 32 sk))
   | PrivOther => Rej EInvalidPrivKey
   end.
